@@ -602,6 +602,11 @@ def solve_projection_onto_manifold_newton_with_line_search(
                 if new_error < error:
                     break
                 step_size *= 0.5
+            else:
+                # Line search exhausted without decreasing residual: position was
+                # last set using twice the current step size so update to ensure
+                # position and Lagrange multiplier updates remain consistent
+                state.pos = pos_curr + step_size * delta_pos
             mu += step_size * delta_mu
         except (ValueError, LinAlgError) as e:
             # Make robust to errors in intermediate linear algebra ops
